@@ -60,30 +60,54 @@ fn decompose(rng: &mut Rng, total: u64) -> Vec<u64> {
 }
 
 /// A generated program: W1's valid operations batched into one text.
+thread_local! { static SUPPORTED: std::sync::Arc<std::collections::BTreeSet<String>> = crate::w1::load_supported("/verif/baselines/w1_supported.txt"); }
+
 fn generated_program(rng: &mut Rng, with_assignments: bool) -> String {
   use crate::w1::{gen, model};
   let mut knobs = gen::draw_knobs(rng, "C05");
   knobs.fault_pm = 0;
   knobs.len = 3 + rng.usize(8);
   if !with_assignments { knobs.weights = vec![6, 3, 0, 0, 0, 0, 0, 0, 2, 3]; }
-  let mut m = model::Model::new(std::sync::Arc::new(Default::default()));
+  let mut m = model::Model::new(SUPPORTED.with(|s| s.clone()));
   let mut lines = vec![];
   for _ in 0..knobs.len * 3 {
     if lines.len() >= knobs.len { break; }
     let op = gen::next_op(rng, &knobs, &m);
     let v = m.apply(&op);
-    if v.fault.is_some() || v.must == model::Must::Err { continue; }
+    if v.fault.is_some() || v.must != model::Must::Ok { continue; }
     if let model::After::Store(st) = &v.after { m.store = st.clone(); } else if !matches!(v.after, model::After::Same) { continue; }
     lines.push(op.render());
   }
   lines.join("\n")
 }
 
+/// Small programs whose re-evaluation really moves state (each step recomputes derived values
+/// from a variable that an assignment or op-assignment of the same plan then changes).
+fn template_program(rng: &mut Rng) -> (String, String) {
+  let a = 1 + rng.below(9); let b = 2 + rng.below(5); let c = 1 + rng.below(4);
+  match rng.below(10) {
+    0 => ("template-scalar-chain".into(), format!("~x := {a}\ny := x * {b}\nx = x + {c}\nz := y - x")),
+    1 => ("template-op-assign".into(), format!("~c := {a}\nc += {b}\nd := c * {c}\ne := d + c")),
+    2 => ("template-vector-element".into(), format!("~v := [{a} {b} {c}]\nv[2] = v[1] + v[3]\ns := v + 1")),
+    3 => ("template-matrix-row".into(), format!("~m := [{a} {b}; {c} 4]\nm[1,:] += {c}\nt := m'\nu := t + m")),
+    4 => ("template-range-op".into(), format!("~w := [{a} {b} {c} 4 5]\nw[2..=4] *= 2\nq := w - 1")),
+    5 => ("template-two-vars".into(), format!("~p := {a}\n~q := {b}\np = p + q\nq = q + p\nr := p * q")),
+    6 => ("template-u8".into(), format!("~k := {a}u8\nk += {c}u8\nj := k * 2u8")),
+    7 => ("template-index-vector".into(), format!("~g := [{a} {b} {c} 9]\ng[[1 3]] = g[[2 4]]\nh := g * 2")),
+    8 => ("template-sub-div".into(), format!("~f := {a}.5\nf -= {c}\nf /= 2\ne := f * {b}")),
+    _ => ("template-string".into(), format!("~s := \"a\"\ns = s + \"{a}\"\nt := s + \"!\"")),
+  }
+}
+
 pub fn plan(seed: u64, k: u64, corpus: &[(String, String)]) -> Plan {
   let mut rng = Rng::for_run(seed, WORLD_ID * 16, k);
   let (name, text) = if (k as usize) < corpus.len() { corpus[k as usize].clone() }
-    else if rng.chance(1, 3) { let wa = rng.chance(1, 2); (format!("generated-{}", if wa { "with-assignments" } else { "no-assignments" }), generated_program(&mut rng, wa)) }
-    else { corpus[rng.usize(corpus.len())].clone() };
+    else { match rng.below(10) {
+      0..=2 => template_program(&mut rng),
+      3..=5 => ("generated-with-assignments".to_string(), generated_program(&mut rng, true)),
+      6 => ("generated-no-assignments".to_string(), generated_program(&mut rng, false)),
+      _ => corpus[rng.usize(corpus.len())].clone(),
+    } };
   let n_rep = 2 + rng.usize(2);
   let total = rng.below(13);
   let mut replicas = vec![];
